@@ -183,6 +183,11 @@ def run(ck):
         by_loc = {t.node_loc[k]: k for k in t.nodes if len(t.nodes[k])}
         shared = CopcReader(io.BytesIO(data))
         hdr = shared.header
+        if ti % 2 == 0:
+            # the shared reader first serves a query that stops one or two levels above the deepest one: what it keeps of the lazily loaded
+            # pages must not depend on that (every later query on it is compared with a fresh reader's answer)
+            ck.count("shared_reader_primed_with_a_coarse_query")
+            guarded(lambda: shared.query(level=max(0, depth - 1)) if ti % 4 == 0 else shared.query(resolution=t.spacing / 2.0 ** max(0, depth - 2)))
         nq = 6 if q else 10
         for qi in range(nq):
             mode = ck.rng.choice(["all", "level", "box", "box", "both", "res", "resbox"]) if qi else "all"
